@@ -36,6 +36,10 @@ SCENARIOS = [
     {'name': 'chain', 'tree0': {'a': A0, 'b': {'ex': True, 'cells': [], 'mode': '644'}, 'd/c': NONE, 'd/e': NONE},
      'series': [{'fps': [M('a', [(1, 0, 1)])]}, {'fps': [M('a', [(2, 0, 1)]), {'kind': 'C', 'old': 'b', 'new': 'b', 'ren': False, 'hunks': [], 'to': [0], 'from': [], 'nmode': 'none'}]},
                 {'fps': [M('a', [(1, 1, 2)], nmode='644')]}]},
+    # the very first patch of the push does not apply (its other file patch does): everything is rolled back and written back
+    {'name': 'first-patch-fails', 'tree0': {'a': A0, 'b': NONE, 'd/c': {'ex': True, 'cells': [0], 'mode': '644'}, 'd/e': NONE},
+     'series': [{'fps': [M('d/c', [(1, 0, 1)]), M('a', [(1, 5, 1), (2, 0, 1)])]},
+                {'fps': [M('a', [(1, 0, 1)])]}]},
 ]
 FLAGS = ['-a', '-q', '--backup', 'always', '--backup-count', 'all']
 # the other backup modes: fewer operations, other paths through the drivers' error handling
@@ -263,9 +267,10 @@ def check(prop, tier):
             total += nf
             res.cov['parts']['hook-injector'] = {'faulted_runs': nf, 'of_them_with_backup_never_or_default': na}
             # (ii) strace injector, sequential driver
-            t1 = pool.map(strace_targets, SCENARIOS)
+            sscen = SCENARIOS[:3] if tier == 'quick' else SCENARIOS
+            t1 = pool.map(strace_targets, sscen)
             sjobs = []
-            for sc, (rc, targets) in zip(SCENARIOS, t1):
+            for sc, (rc, targets) in zip(sscen, t1):
                 res.cov['parts']['strace/%s' % sc['name']] = {'output_syscalls': len(targets)}
                 quick_errnos = {'unlink': ('EACCES', 'EIO'), 'mkdir': ('EACCES',), 'openat': ('EACCES', 'ENOSPC'), 'write': ('ENOSPC',), 'fchmod': ('EPERM',), 'rmdir': ('EACCES',)}
                 for i, (call, ordinal, rel) in enumerate(targets):
